@@ -56,7 +56,9 @@ def prime():
 
 def _gen_spec(rw, kind):
     fs = rw.choice([1.0, 2.0, 10.0, 100.0, 1000.0, round(rw.uniform(0.5, 500.0), 3)])
-    spec = {"kind": kind, "fs": fs, "seed": rw.randrange(0, 2 ** 32)}
+    # seeds: mostly arbitrary, sometimes the edge values a "falsy"/overflow bug would trip over
+    seed = rw.choice([0, 0, 1, 2 ** 32 - 1, 2 ** 32, 2 ** 63]) if rw.random() < 0.15 else rw.randrange(0, 2 ** 32)
+    spec = {"kind": kind, "fs": fs, "seed": seed}
     if kind == "white":
         spec["psd"] = rw.choice([1.0, 0.01, 100.0, round(rw.uniform(0.1, 10), 3)])
     else:
